@@ -2447,7 +2447,8 @@ void copy_api_from_app(
     scs_ptr->static_config.enable_manual_pred_struct    = config_struct->enable_manual_pred_struct;
     if(scs_ptr->static_config.enable_manual_pred_struct){
         scs_ptr->static_config.manual_pred_struct_entry_num = config_struct->manual_pred_struct_entry_num;
-        EB_MEMCPY(&scs_ptr->static_config.pred_struct[0], &config_struct->pred_struct[0],config_struct->manual_pred_struct_entry_num*sizeof(PredictionStructureConfigEntry));
+        // copy no more entries than the table holds; verify_settings rejects an entry count above that afterwards
+        EB_MEMCPY(&scs_ptr->static_config.pred_struct[0], &config_struct->pred_struct[0],MIN((uint32_t)config_struct->manual_pred_struct_entry_num, (uint32_t)(1 << (MAX_HIERARCHICAL_LEVEL - 1)))*sizeof(PredictionStructureConfigEntry));
         switch (scs_ptr->static_config.manual_pred_struct_entry_num) {
             case 1:
                 scs_ptr->static_config.hierarchical_levels =  0;
